@@ -197,6 +197,34 @@ fn adversarial(r: &mut Rng, out: &mut Out) {
             v.extend([3, b'W', b'w', b'W', 2, b'E', b'x', 0, 0, 1, 0, 1]);
             decode_case(&v, out);
         }
+        10 if r.chance(1, 2) => {
+            // pointer hops through octets never parsed as a name (header fields, opaque RDATA): a
+            // later hop that does not go backwards must be rejected, and cycles must terminate
+            match r.below(3) {
+                0 => {
+                    // ID = pointer to 4, QDCOUNT octets = pointer to 0, question name = pointer to 0
+                    let v = vec![0xC0, 0x04, 0x01, 0x00, 0xC0, 0x00, 0, 0, 0, 0, 0, 0, 0xC0, 0x00, 0x00, 0x01, 0x00, 0x01];
+                    decode_case(&v, out);
+                }
+                1 => {
+                    // TXT RDATA holding two pointers at each other; a later owner name points into it
+                    let mut v = hdr(id, [0, 2, 0, 0]);
+                    v.extend([0, 0, 16, 0, 1, 0, 0, 0, 9, 0, 4]); // root TXT rdlength 4; rdata at 23
+                    v.extend([0xC0, 25, 0xC0, 23]); // 23 -> 25 -> 23
+                    v.extend([0xC0, 23, 0, 1, 0, 1, 0, 0, 0, 9, 0, 4, 1, 2, 3, 4]);
+                    decode_case(&v, out);
+                }
+                _ => {
+                    // second hop goes FORWARD (but stays before the outermost name): 12.. question root;
+                    // answer 1 NULL rdata = [ptr -> later offset inside rdata][label a][root]; answer 2 owner -> rdata
+                    let mut v = hdr(id, [0, 2, 0, 0]);
+                    v.extend([0, 0, 10, 0, 1, 0, 0, 0, 9, 0, 5]); // root NULL rdlength 5; rdata at 23
+                    v.extend([0xC0, 25, 1, b'a', 0]); // 23: ptr -> 25 (forward hop), 25: label a, root
+                    v.extend([0xC0, 23, 0, 1, 0, 1, 0, 0, 0, 9, 0, 4, 1, 2, 3, 4]);
+                    decode_case(&v, out);
+                }
+            }
+        }
         10 => {
             // every prefix of a tiny valid message
             let mut v = hdr(id, [1, 1, 0, 0]);
